@@ -354,6 +354,7 @@ def main(modname, argv=None):
     ap.add_argument("--no-evidence", action="store_true")
     ap.add_argument("--no-shrink", action="store_true")
     ap.add_argument("--opt", action="append", default=[], help="k=v passed to the check")
+    ap.add_argument("--digests", metavar="FILE", help="determinism audit: write {run index: digest} for --runs runs to FILE and exit")
     args = ap.parse_args(argv)
 
     bind_repo()
@@ -365,11 +366,13 @@ def main(modname, argv=None):
     if args.replay:
         return do_replay(mod, args.replay, opts)
 
+    if args.digests:
+        return _digests(modname, mod, args, opts)
     t_start = time.time()
     known = load_known(mod.ID)
     nruns = args.runs if args.runs is not None else mod.RUNS[args.tier]
     wall_cap = getattr(mod, "WALL_CAP", {"quick": 150, "thorough": 3000})[args.tier]
-    selftest_n = min(getattr(mod, "SELFTEST_N", 64), nruns)
+    selftest_n = min(getattr(mod, "SELFTEST_N", 1000), nruns)
     opts["selftest_n"] = selftest_n
     jobs = max(1, args.jobs)
     nbatches = max(jobs * 6, 1)
@@ -531,6 +534,32 @@ def main(modname, argv=None):
     if total["n"] == 0:
         print("HARNESS-ERROR: nothing ran", file=sys.stderr)
         return 2
+    return 0
+
+
+def _digests(modname, mod, args, opts):
+    """Run --runs indices in the pool (with --jobs workers) and dump their digests."""
+    n = args.runs or 500
+    opts = dict(opts, selftest_n=args.start + n)
+    jobs = max(1, args.jobs)
+    size = max(1, -(-n // (jobs * 3)))
+    ctx = multiprocessing.get_context("fork")
+    out = {}
+    with ProcessPoolExecutor(max_workers=jobs, mp_context=ctx) as pool:
+        futs = []
+        i = args.start
+        while i < args.start + n:
+            futs.append(pool.submit(_batch, modname, args.seed, range(i, min(args.start + n, i + size)), opts, 0, 600))
+            i += size
+        for f in futs:
+            agg = f.result()
+            if agg["error"]:
+                print("HARNESS-ERROR:", agg["error"]["traceback"], file=sys.stderr)
+                return 2
+            out.update({str(k): v for k, v in agg["digests"].items()})
+    with open(args.digests, "w") as f:
+        json.dump(out, f)
+    print(f"{mod.ID} digests for {len(out)} runs written to {args.digests}")
     return 0
 
 
